@@ -472,6 +472,60 @@ def root_local(body, op):
     return l
 
 
+def origin_local(body, op, depth=12):
+    """root_local, also through a value that was packed into a struct / Ok(..) / `?` and taken out again (`let p = Packet::read(..)?;
+    .. p.first_id ..` with the helper inlined): the local whose value the operand carries, or None.  Every step follows the ONLY whole
+    definition of a temporary, so the answer is exact, not one of several alternatives."""
+    r = res(body)
+    if op.get('k') not in ('copy', 'move'):
+        return None
+    l, proj = op['p']['l'], list(op['p']['p'])
+    for _ in range(depth * 4):
+        ds = list(r.defs.get(l, []))
+        if proj and proj[0].get('k') == 'downcast':
+            # looking at the value under one variant: definitions that build another variant (the Err of an inlined helper's `?`, the
+            # copies of a Try::branch block the inliner made for the error route) do not supply it
+            v = proj[0].get('v')
+            def other(d):
+                if d[0]:
+                    return False
+                if body.blocks[d[3]].get('err_dup'):
+                    return True
+                if d[1] == 'rv' and d[2]['k'] == 'agg' and d[2].get('variant') not in (None, v):
+                    return True
+                return d[1] == 'call' and v in ('Ok', 'Some', 'Continue') and (d[2].get('fn') or {}).get('orig', '').endswith('from_residual')
+            ds = [d for d in ds if not other(d)]
+        if len(ds) != 1 or ds[0][0]:
+            break
+        _, kind, pl, bb = ds[0]
+        if kind == 'rv' and pl['k'] == 'use' and pl['op']['k'] in ('copy', 'move'):
+            l, proj = pl['op']['p']['l'], list(pl['op']['p']['p']) + proj
+            continue
+        if kind == 'rv' and pl['k'] == 'agg' and pl.get('ak') in ('adt', 'tuple') and proj:
+            pr = list(proj)
+            if pr[0].get('k') == 'downcast':
+                if pr[0].get('v') != pl.get('variant'):
+                    break
+                pr = pr[1:]
+            if not pr or pr[0].get('k') != 'field' or pr[0]['i'] >= len(pl['ops']):
+                break
+            o2 = pl['ops'][pr[0]['i']]
+            if o2.get('k') not in ('copy', 'move'):
+                return None
+            l, proj = o2['p']['l'], list(o2['p']['p']) + pr[1:]
+            continue
+        if kind == 'call' and (pl.get('fn') or {}).get('orig', '').endswith('Try::branch') and len(pl['args']) == 1 and len(proj) >= 2 \
+                and proj[0].get('k') == 'downcast' and proj[0].get('v') == 'Continue' and proj[1].get('k') == 'field' \
+                and pl['args'][0].get('k') in ('copy', 'move'):
+            a = pl['args'][0]
+            ok_v = 'Ok' if 'Result<' in a['p'].get('ty', '').replace('result::Result', 'Result') else 'Some'
+            l = a['p']['l']
+            proj = list(a['p']['p']) + [{'k': 'downcast', 'vi': 0 if ok_v == 'Ok' else 1, 'v': ok_v}, proj[1]] + proj[2:]
+            continue
+        break
+    return l if not proj else None
+
+
 def local_defs(body, l):
     """[(term, bb)] whole definitions of local l"""
     r = res(body)
@@ -484,7 +538,7 @@ def local_defs(body, l):
     return out
 
 
-def closure_item_range(fx, cbody):
+def closure_item_range(fx, cbody, any_source=False):
     """for a closure body handed to an iterator adapter (map / filter / all / any / for_each / find / position ..) whose source,
     below order- and value-preserving adapters, is a Range: the Range term (its items are what the closure's argument takes), in
     the terms of the function that builds the closure; else None.  `filter(|x| ..)` receives `&item`: same values."""
@@ -506,8 +560,14 @@ def closure_item_range(fx, cbody):
             src = src[2][0]
         if src[0] == 'agg' and src[1] in ('std::ops::Range', 'std::ops::RangeInclusive'):
             return src
-        return None
+        return src if any_source else None
     return None
+
+
+def closure_item_source(fx, cbody):
+    """like closure_item_range, for any source: the iterator (below order- and value-preserving adapters) whose items the closure's
+    argument takes, in the terms of the function that builds the closure; else None"""
+    return closure_item_range(fx, cbody, any_source=True)
 
 
 def deep_facts(body, bb, _depth=3):
@@ -532,6 +592,33 @@ def deep_facts(body, bb, _depth=3):
         t, b_ = live[0]
         out += holds_both(t, truth)
         out += deep_facts(body, b_, _depth - 1)
+    return out
+
+
+def deep_conds(body, bb, _depth=3):
+    """[(condition term, truth)] known at bb - the guards themselves and, like deep_facts, what a materialised boolean stands for
+    (`let ok = r1.contains(&x) && r2.contains(&y); if ok {..}`, or the same returned by an inlined helper): conditions that are
+    calls rather than comparisons included"""
+    out = []
+    for cond, vals, a in guards(body, bb):
+        truth = bool_outcome(body, a, vals)
+        if truth is None:
+            continue
+        out.append((cond, truth))
+        if _depth == 0:
+            continue
+        l = root_local(body, body.blocks[a]['term']['discr'])
+        if l is None:
+            continue
+        defs = [(t, b_) for t, b_ in local_defs(body, l) if b_ in body.cfg.reach]
+        if len(defs) < 2:
+            continue
+        live = [(t, b_) for t, b_ in defs if not (t[0] == 'const' and isinstance(t[1], (bool, int)) and bool(t[1]) == (not truth))]
+        if len(live) != 1:
+            continue
+        t, b_ = live[0]
+        out.append((t, truth))
+        out += deep_conds(body, b_, _depth - 1)
     return out
 
 
@@ -640,17 +727,53 @@ def error_blocks(body):
     return out
 
 
+def return_slots(body):
+    """locals that carry the function's result: local 0, and the return slots of inlined `helper(..)?` calls (an Err put there ends the
+    function with that error)"""
+    error_blocks(body)          # fills body._manual_qm
+    manual = getattr(body, '_manual_qm', set())
+    return {0} | {i for i, l in enumerate(body.locals) if l.get('err_exit')} | set(manual)
+
+
 def is_ok_agg(t):
     return t[0] == 'agg' and t[2] == 'Ok'
 
 
+def _handoffs(body):
+    """{(bb, local)}: statements `slot = move other_slot` between result slots (the result of an inlined helper handed to the caller's
+    own return place): they create neither an Ok nor an Err value"""
+    h = getattr(body, '_handoff_memo', None)
+    if h is not None:
+        return h
+    slots = return_slots(body) | {i for i, l in enumerate(body.locals) if l.get('ret_dest') == 0}
+    h = set()
+    for bi, blk in enumerate(body.blocks):
+        for st in blk['stmts']:
+            if st['k'] == 'assign' and not st['p']['p'] and st['rv']['k'] == 'use' and st['rv']['op'].get('k') in ('move', 'copy') \
+                    and not st['rv']['op']['p']['p'] and st['rv']['op']['p']['l'] in slots and (st['p']['l'] in slots or st['p']['l'] == 0):
+                h.add((bi, st['p']['l']))
+    try:
+        body._handoff_memo = h
+    except Exception:
+        pass
+    return h
+
+
+def result_slots(body):
+    """locals whose value becomes the function's own result: local 0 and the return slot of an inlined helper whose result is the
+    caller's result (tail call)"""
+    return {0} | {i for i, l in enumerate(body.locals) if l.get('ret_dest') == 0 and l.get('err_exit')}
+
+
 def arm_always_err(body, succ, region=None):
-    """every path from `succ` to a return carries an Err in _0 and no Ok value is assigned on the way:
-    checked as: within blocks reachable from succ (before return), every whole def of _0 is an error term and
-    there is at least one."""
+    """every path from `succ` to a return carries an Err in the function's result and no Ok value is assigned on the way:
+    checked as: within blocks reachable from succ (before return), every whole def of a result slot (local 0, or the return slot of an
+    inlined helper whose result the caller returns / `?`-propagates) is an error term and there is at least one."""
     cfg = body.cfg
     reach = cfg.reachable_from(succ)
-    ds = [d for d in defs_in(body, reach) if d[0] == 0 and not d[1]]
+    slots = return_slots(body)
+    ho = _handoffs(body)
+    ds = [d for d in defs_in(body, reach) if d[0] in slots and not d[1] and (d[3], d[0]) not in ho]
     if not ds:
         return False
     return all(all(is_err_term(a) for a in alts(d[2])) for d in ds)
